@@ -307,6 +307,10 @@ Section Parser.
                 match cl h, cl v with
                 | CHash, CConst CkTrue => Ok (XAtom (LfBool true), r')
                 | CHash, CConst CkFalse => Ok (XAtom (LfBool false), r')
+                | CHash, CConst CkInt =>          (* BOOL#1 / BOOL#0: the digits token whose text is exactly 1 or 0 *)
+                    if text_eqb (txt v) [49%N] then Ok (XAtom (LfBool true), r')
+                    else if text_eqb (txt v) [48%N] then Ok (XAtom (LfBool false), r')
+                    else Fail
                 | _, _ => Fail
                 end
             | _ => Fail
